@@ -543,6 +543,15 @@ pub fn run_grammar_opts(g: &G, defs: &[ProbeDef], probes: &Probes, depth: usize,
         })
         .collect();
     let batch = bashrun::run_batch(&script, &c.command, defs, &queries, scratch);
+    if batch.hung {
+        let k = batch.answers.len();
+        let line = queries.get(k).map(|q| format!("{} {}<TAB>", c.command, q.words.join(" "))).unwrap_or_default();
+        return Err(RunError::Violation(Mismatch {
+            key: "completion-never-returns".into(),
+            summary: format!("`{line}` for grammar `{}`: the completion function did not return (bash killed at the horizon)", text.trim_end().replace('\n', " ")),
+            detail: J::obj(vec![("grammar", J::s(&text)), ("line", J::s(line)), ("why", J::s(batch.failed.clone().unwrap_or_default()))]),
+        }));
+    }
     if let Some(f) = batch.failed {
         return Err(RunError::Machinery(format!("{f}; stderr: {}", batch.stderr.chars().take(400).collect::<String>())));
     }
